@@ -9,7 +9,7 @@
 (*   mode 0: answered 0; 1: answered the exact end (found with encoding/json);*)
 (*        2: scripted hostile answer                                          *)
 (*   errid 0 nil; k the identical sentinel k; -1 a library error; -2 wrapped  *)
-EXTENDS Handlers, TraceCore
+EXTENDS HandlersImpl, TraceCore
 
 VARIABLE l
 
@@ -45,7 +45,16 @@ Clauses(e) ==
       c10a == res[4] = 0
       c10b == res[1] = 1 => (res[2] >= 0 /\ res[2] <= n)
       c10c == \A i \in 1..nc : (calls[i][6] = 0 /\ uses(i) /\ outOfRange(i)) => res[1] = 0
-  IN F(c09, "C09", "handler_error_not_returned_unchanged_or_traversal_continued")
+      \* conformance of the implementation-shaped model (HandlersImpl) with the real traversal for *every*
+      \* recorded answer sequence, hostile ones included (CONFORMANCE=1; notes, never violations)
+      conf == IF "CONFORMANCE" \in DOMAIN IOEnv /\ IOEnv.CONFORMANCE = "1" /\ n <= 400
+              THEN LET m == ImplRunRec(d, kind, [i \in 1..nc |-> <<calls[i][4], calls[i][5], calls[i][6]>>])
+                   IN /\ (res[1] = 1) = m.ok
+                      /\ m.ok => res[2] = m.end
+                      /\ [i \in 1..nc |-> calls[i][1]] = m.calls
+              ELSE TRUE
+  IN F(conf, "NOTE", "traversal_differs_from_HandlersImpl_model")
+     \cup F(c09, "C09", "handler_error_not_returned_unchanged_or_traversal_continued")
      \cup F(c07, "C07", "members_or_result")
      \cup F(infra, "INFRA", "harness_exact_answer_differs_from_spec")
      \cup F(c10a, "C10", "panic") \cup F(c10b, "C10", "offset_out_of_range")
